@@ -66,7 +66,9 @@ def gen_prescription(g, idx, mode=None, n=None):
         s = {'type': 'STANDARD', 'stop': k == stop_at, 'glass': None, 'coni': None, 'parm': None, 'extra_parm': False}
         if k == 0:
             s['curv'] = '0.0'
-            s['disz'] = fmt(g, r.uniform(50, 500)) if finite_obj else 'INFINITY'
+            # finite object distances over the whole finite range (a far but FINITE object is not an object at infinity)
+            od = r.uniform(50, 500) if r.random() < 0.7 else 10 ** r.uniform(3, 15)
+            s['disz'] = fmt(g, od) if finite_obj else 'INFINITY'
         elif k == n + 1:
             s['curv'] = r.choice(['0.0', '0', '0.'])
             s['disz'] = r.choice(['0', '0.0'])
@@ -77,7 +79,7 @@ def gen_prescription(g, idx, mode=None, n=None):
                 s['curv'] = fmt(g, r.choice([-1, 1]) / r.uniform(12.0, 400.0))
             t = r.uniform(0.3, 12.0)
             if wild and r.random() < 0.15:
-                t = r.choice([0.0, -r.uniform(0.1, 5), 1e5])
+                t = r.choice([0.0, -r.uniform(0.1, 5), 1e5, 1e10, 10 ** r.uniform(6, 13), -10 ** r.uniform(6, 13)])
             s['disz'] = fmt(g, t)
             if wild and r.random() < 0.04:
                 s['disz'] = r.choice(['INFINITY', '1e400'])
